@@ -5,6 +5,7 @@ import (
 	"encoding/json"
 	"fmt"
 	"strings"
+	"unicode/utf16"
 )
 
 type builtinJSONParseContext struct {
@@ -164,9 +165,10 @@ func builtinJSONStringify(call FunctionCall) Value {
 		}
 		switch spaceValue.kind {
 		case valueString:
+			// The first 10 characters (code units), not bytes (15.12.3 step 7).
 			value := spaceValue.string()
-			if len(value) > 10 {
-				ctx.gap = value[0:10]
+			if units := utf16.Encode([]rune(value)); len(units) > 10 {
+				ctx.gap = string(utf16.Decode(units[0:10]))
 			} else {
 				ctx.gap = value
 			}
